@@ -618,10 +618,17 @@ def rule_r8(ctx) -> List[R.Inst]:
     return insts
 
 
+def rule_r9(ctx):
+    """key-count and sample-set tables that converters, readers and writers use in both directions agree
+    (sa/props/tablepairs.py): back(fwd(k)) = k"""
+    from .tablepairs import pair_insts
+    return pair_insts(ctx, "C08.R9")
+
+
 def rule_dep(ctx):
     """obligations inherited from shared code reached through the call graph (sa/props/deps.py)"""
     from .deps import dep_insts
-    return dep_insts(ctx, "C08", __import__("sa.props.common", fromlist=["x"]).converter_entries(ctx.M), skip_groups=())
+    return dep_insts(ctx, "C08", __import__("sa.props.common", fromlist=["x"]).converter_entries(ctx.M), skip_groups=("tables",))
 
 
 SPECS = [
@@ -633,6 +640,7 @@ SPECS = [
     RuleSpec("C08.R6", rule_r6, 17, "A3", "source untouched"),
     RuleSpec("C08.R7", rule_r7, 35, "A2", "empty()/cast() results have exactly the declared fields, no undefined cells"),
     RuleSpec("C08.R8", rule_r8, 1, "A4", "label-agnostic copy in cast()"),
+    RuleSpec("C08.R9", rule_r9, 3, "A1", "paired lookup tables (keys <-> chart type / mode, sample set code <-> name) are mutually consistent"),
     RuleSpec("C08.D", rule_dep, 1, "M0", "rules of the shared code (timing engine, list classes, stacker) that the operations of this property reach"),
 ]
 
